@@ -179,6 +179,25 @@ void harness(void)
 #else
 static int sgn(int v) { return v < 0 ? -1 : (v > 0 ? 1 : 0); }
 
+/* Used ONLY to delimit the known-finding region (not by any oracle): do two elements tie on rules 1-8? */
+static int tie18(const struct addrinfo_sort_elem *a, const struct addrinfo_sort_elem *b)
+{
+  int sa = a->has_src_addr ? get_scope(&a->src_addr.sa) : ARES_IPV6_ADDR_SCOPE_NODELOCAL;
+  int sb = b->has_src_addr ? get_scope(&b->src_addr.sa) : ARES_IPV6_ADDR_SCOPE_NODELOCAL;
+  int la = a->has_src_addr ? get_label(&a->src_addr.sa) : 1;
+  int lb = b->has_src_addr ? get_label(&b->src_addr.sa) : 1;
+  return a->has_src_addr == b->has_src_addr &&
+         (sa == get_scope(a->ai->ai_addr)) == (sb == get_scope(b->ai->ai_addr)) &&
+         (la == get_label(a->ai->ai_addr)) == (lb == get_label(b->ai->ai_addr)) &&
+         get_precedence(a->ai->ai_addr) == get_precedence(b->ai->ai_addr) &&
+         get_scope(a->ai->ai_addr) == get_scope(b->ai->ai_addr);
+}
+static int v6src(const struct addrinfo_sort_elem *a) { return a->has_src_addr && a->ai->ai_addr->sa_family == AF_INET6; }
+static size_t plen(const struct addrinfo_sort_elem *a)
+{
+  return common_prefix_len(&a->src_addr.sa6.sin6_addr, &((const struct sockaddr_in6 *)(const void *)a->ai->ai_addr)->sin6_addr);
+}
+
 void harness(void)
 {
   static struct ares_addrinfo_node node[3];
@@ -202,9 +221,15 @@ void harness(void)
   }
   VP_ASSUME(e[0].original_order != e[1].original_order && e[1].original_order != e[2].original_order &&
             e[0].original_order != e[2].original_order);
-  /* FINDING sort_compare_nontransitive lives where rule 9 (longest matching prefix) applies to one pair of the triple
-   * (both IPv6 with a source address) but not to the others */
-  rule9_mixed = (n_v6src >= 2 && n_other >= 1);
+  /* FINDING sort_compare_nontransitive lives exactly where all three elements tie on rules 1-8, two of them are IPv6
+   * with a source address and DIFFERENT prefix lengths (rule 9 orders that pair) and the third is not (rule 9 is
+   * skipped for its pairs, original order decides): e.g. IPv4-mapped IPv6 destinations next to an IPv4 one */
+  rule9_mixed = 0;
+  if (n_v6src == 2 && n_other == 1 && tie18(&e[0], &e[1]) && tie18(&e[1], &e[2])) {
+    const struct addrinfo_sort_elem *x = v6src(&e[0]) ? &e[0] : &e[1];
+    const struct addrinfo_sort_elem *z = v6src(&e[2]) ? &e[2] : &e[1];
+    rule9_mixed                        = plen(x) != plen(z);
+  }
 
   ab = rfc6724_compare(&e[0], &e[1]);
   ba = rfc6724_compare(&e[1], &e[0]);
